@@ -69,7 +69,8 @@ func (s *BoltStore) Get(name enc.Name, prefix bool) (wire []byte, err error) {
 					continue
 				}
 				ver := binary.BigEndian.Uint64(v[:8])
-				if ver > maxVer {
+				if wire == nil || ver > maxVer {
+					// (version 0 is a version: the first packet found is the newest so far)
 					maxVer = ver
 					wire = v[8:]
 				}
